@@ -98,6 +98,9 @@ Proof.
   split; [reflexivity|]. split; [reflexivity|]. constructor; [|constructor]. unfold wf_share. simpl. repeat constructor.
 Qed.
 
+Example C09_example_invariant_initially : hist_inv ex_cfg [] [].
+Proof. exact (hist_inv_init ex_cfg). Qed.
+
 (* a history: proposal (accepted), the same proposal again (ignored: limit), a second proposal with
    other data (rejected), a prepare and a decided message (accepted), a prepare of round 2 one slot
    later, then one of round 1 (ignored: round already advanced) *)
